@@ -18,6 +18,7 @@ func profileFor(prop string) Profile {
 	case "C02":
 		p.PPrereq, p.PTargets, p.PCtxTargets, p.MaxRules = 0.5, 0.5, 0.3, 4
 		p.PMalformed = 0.04 // a malformed clause or index that the deciding stage never reaches must not change the decision
+		p.PKindAttr, p.PMulti = 0.15, 0.4 // clauses on the built-in attribute "kind" against multi-kind contexts (pseudo-kind "multi")
 	case "C03":
 		p.PTargets, p.PCtxTargets, p.PMulti, p.MaxRules, p.PPrereq, p.MaxSegs = 0.85, 0.65, 0.5, 1, 0.1, 1
 		p.PLegacy = 0.35 // legacy users: the only way to an empty key
@@ -32,16 +33,20 @@ func profileFor(prop string) Profile {
 		p.PSegmentOp, p.PBigSeg, p.MinSegs, p.MaxSegs, p.PPrereq, p.PTargets, p.PCtxTargets, p.POff = 0.75, 0.0, 2, 5, 0.05, 0.05, 0.05, 0.02
 		p.PMulti = 0.5
 		p.PNestedSeg = 0.1
+		p.PTopBucket = 0.01
+		p.PPseudoKind = 0.12
 	case "C06":
 		p.PRollout, p.PLongStrings, p.PPrereq, p.PTargets, p.PCtxTargets, p.POff, p.MaxRules = 0.95, 0.25, 0, 0.02, 0.02, 0.02, 1
 		p.PSegmentOp, p.MinSegs, p.MaxClauses = 0.45, 2, 1 // weighted segment rules (incl. ones that look into another segment) share the hash
 		p.PNestedSeg = 0.12
+		p.PTopBucket = 0.01
 		p.PZeroAge = 0.12
 		p.PSegBucket = 0.3 // weighted segment rules with a bucket-by attribute; an invalid reference gives MALFORMED_FLAG at every weight
 	case "C07":
 		p.PRollout, p.PBoundary, p.PDegenerateWeights, p.PPrereq, p.PTargets, p.PCtxTargets, p.POff, p.PExperiment = 0.95, 0.75, 0.4, 0, 0.02, 0.02, 0.02, 0.2
 		p.PSegmentOp = 0.4
 		p.PNestedSeg = 0.1
+		p.PTopBucket = 0.015
 	case "C08":
 		p.PRollout, p.PExperiment, p.PDegenerateWeights, p.PMulti, p.PPrereq, p.POff = 0.9, 0.75, 0.45, 0.5, 0.3, 0.08
 	case "C09":
